@@ -4,6 +4,7 @@
   (YEARLY: month and month day; MONTHLY: month day) when no day-level part is supplied.
 -/
 import DateutilVerif.Proofs.RRuleBridge
+import DateutilVerif.Proofs.RRuleTimes
 
 namespace RRule
 open Cal
@@ -16,51 +17,45 @@ structure YMArgs (a : Args) : Prop where
   byweekno : a.byweekno = none
   byeaster : a.byeaster = none
   bysetpos : a.bysetpos = none
-  byhour : a.byhour = none
-  byminute : a.byminute = none
-  bysecond : a.bysecond = none
   monthday_nz : ∀ x ∈ a.bymonthday.getD [], x ≠ 0
   plain : ∀ w ∈ a.byweekday.getD [], w.2 = 0
 
 variable {a : Args} {r : Rule}
 
-theorem ym_rule (ya : YMArgs a) (h : construct a = .ok r) :
-    r = { freq := a.freq, interval := a.interval, wkst := a.wkst.getD 0,
-          dtstart := { a.dtstart with us := 0 }, tz := a.tz, count := a.count, untilDT := a.untilDT,
-          bysetpos := none, bymonth := bymonthOf a, bymonthday := bymonthdayOf a,
-          bynmonthday := bynmonthdayOf a, byyearday := a.byyearday.map sortedSet,
-          byeaster := none, byweekno := none,
-          byweekday := byweekdayOf a, bynweekday := bynweekdayOf a,
-          byhour := some [a.dtstart.hh], byminute := some [a.dtstart.mm], bysecond := some [a.dtstart.ss],
-          timeset := some [(a.dtstart.hh, a.dtstart.mm, a.dtstart.ss)] } := by
-  obtain ⟨sp, bh, bm, bs, ts, h1, h2, h3, h4, h5, rfl⟩ := construct_ok a r h
-  have hv := ya.valid
-  unfold DT.Valid at hv
+/-- the normalised rule of a YEARLY / MONTHLY argument set, up to the three unit lists -/
+abbrev ymRuleOf (a : Args) (bh bm bs : Option (List Int)) : Rule :=
+  { freq := a.freq, interval := a.interval, wkst := a.wkst.getD 0,
+    dtstart := { a.dtstart with us := 0 }, tz := a.tz, count := a.count, untilDT := a.untilDT,
+    bysetpos := none, bymonth := bymonthOf a, bymonthday := bymonthdayOf a,
+    bynmonthday := bynmonthdayOf a, byyearday := a.byyearday.map sortedSet,
+    byeaster := none, byweekno := none,
+    byweekday := byweekdayOf a, bynweekday := bynweekdayOf a,
+    byhour := bh, byminute := bm, bysecond := bs,
+    timeset := some (Spec.RRule.timesOf a none none none) }
+
+theorem ym_rule (ya : YMArgs a) (h : construct a = .ok r) : ∃ bh bm bs, r = ymRuleOf a bh bm bs := by
   have hf4 : a.freq < 4 := by rcases ya.freq with h | h <;> omega
+  have hts := construct_timeset a r h hf4
+  obtain ⟨sp, bh, bm, bs, ts, h1, h2, h3, h4, h5, rfl⟩ := construct_ok a r h
+  dsimp only at hts
+  subst hts
   simp only [normBysetpos, ya.bysetpos] at h1
-  simp only [normUnit, ya.byhour, ya.byminute, ya.bysecond] at h2 h3 h4
-  rw [if_pos hf4] at h2
-  rw [if_pos (by omega)] at h3 h4
-  injection h1 with h1; injection h2 with h2; injection h3 with h3; injection h4 with h4
-  subst h1; subst h2; subst h3; subst h4
-  have hmk : mkTime a.dtstart.hh a.dtstart.mm a.dtstart.ss = .ok (a.dtstart.hh, a.dtstart.mm, a.dtstart.ss) := by
-    unfold mkTime; rw [if_pos (by omega)]
-  unfold timesetOf at h5
-  rw [if_neg (by omega)] at h5
-  simp [buildTimeset, productHMS, checkTimes, hmk, sortBy, insertBy] at h5
-  subst h5
-  simp [ya.byweekno, ya.byeaster]
+  injection h1 with h1; subst h1
+  exact ⟨bh, bm, bs, by simp [ymRuleOf, ya.byweekno, ya.byeaster]⟩
 
 theorem ym_cuts (ya : YMArgs a) (h : construct a = .ok r) : CutsAgree a r := by
-  rw [ym_rule ya h]; exact ⟨rfl, rfl, rfl⟩
+  obtain ⟨bh, bm, bs, hr⟩ := ym_rule ya h
+  rw [hr]; exact ⟨rfl, rfl, rfl⟩
 
 theorem ym_weekdayArg (ya : YMArgs a) : weekdayArg a = a.byweekday := by
   unfold weekdayArg
   rcases ya.freq with h | h <;> simp [h]
 
 theorem ym_simple (ya : YMArgs a) (h : construct a = .ok r) : SimpleRule r := by
-  rw [ym_rule ya h]
+  obtain ⟨bh, bm, bs, hr⟩ := ym_rule ya h
+  rw [hr]
   refine ⟨rfl, ?_, rfl⟩
+  unfold ymRuleOf
   dsimp only
   unfold bynweekdayOf
   rw [ym_weekdayArg ya]
@@ -193,8 +188,9 @@ theorem simpleOk_eq_dateOk_ym (ya : YMArgs a) (h : construct a = .ok r) (ord : I
     simpleOk r ord = Spec.RRule.dateOk a ord := by
   obtain ⟨_, hv, _⟩ := toOrdinal_fromOrdinal ord ho
   obtain ⟨_, _, hd1, hd2⟩ := hv
-  rw [ym_rule ya h]
-  unfold simpleOk Spec.RRule.dateOk
+  obtain ⟨bh, bm, bs, hr⟩ := ym_rule ya h
+  rw [hr]
+  unfold simpleOk Spec.RRule.dateOk ymRuleOf
   dsimp only
   have hnd : Spec.RRule.noDayParts a = noDayParts a := rfl
   have hmonths : Spec.RRule.months a =
